@@ -640,6 +640,64 @@ def repo_classes(repo):
     return repo._pgv_class_names
 
 
+# ------------------------------------------------------------------ R15.actions-reset
+def rule_actions_reset(rep):
+    with rep.rule(
+        "R15.actions-reset",
+        "Grammar._resolve_actions (run by every parser construction on the shared symbols) assigns "
+        "symbol.action for every symbol on every normal path: either the action resolved now or the "
+        "grammar's own; nothing installed for an earlier parser survives",
+    ) as r:
+        repo = rep.repo
+        f = repo.func("parglare.grammar.Grammar._resolve_actions")
+        loop = next((s_ for s_ in f.body if isinstance(s_, ast.For) and unparse(s_.iter) == "self"), None)
+        r.need(loop is not None and isinstance(loop.target, ast.Name), "_resolve_actions: loop over the symbols not found")
+        sym = loop.target.id
+        g = cfgmod.build_region(loop.body)
+        stores = [
+            n for n in g.nodes if n.kind == "stmt" and isinstance(n.ast, ast.Assign)
+            and any(unparse(t) == f"{sym}.action" for t in n.ast.targets)
+        ]
+        r.floor("stores to symbol.action in _resolve_actions", len(stores), 2)
+        normal = [g.exit] + [x for k, x in g.extra_exits.items() if k in ("next", "continue")]
+        missed = g.must_pass([g.entry], stores, exits=normal) if stores else normal
+        # g.entry itself is a pseudo node: must_pass starts after it
+        r.check(
+            not missed,
+            "every symbol gets its action (re)assigned",
+            "_resolve_actions:every-path",
+            "some normal path through the symbol loop of _resolve_actions leaves symbol.action as it was: the "
+            "action an earlier Parser/GLRParser installed on the shared grammar symbol is used by the next parser "
+            "(whose actions do not mention the symbol)",
+            node=loop,
+        )
+        for n in stores:
+            # only the value a path leaves behind matters
+            others = [x for x in stores if x is not n]
+            starts = [m for _, m in n.succ]
+            final = any(e in g.reach(starts, avoid_nodes=others) for e in normal) and n not in others
+            if not final:
+                continue
+            v = unparse(n.ast.value)
+            r.check(
+                v in ("action", f"{sym}.grammar_action"),
+                f"stored value `{v}`",
+                "_resolve_actions:value",
+                f"_resolve_actions stores `{v}` as the symbol's action (needed: the action resolved for this parser, "
+                "else the grammar's own action)",
+                node=n.ast,
+            )
+            if v == "action":
+                dom = g.dominating_tests(n)
+                r.check(
+                    ("action is not None", "T") in dom or ("action != None", "T") in dom or ("action is None", "F") in dom or ("action", "T") in dom,
+                    "the resolved action is stored only when there is one",
+                    "_resolve_actions:guard",
+                    f"the resolved action is stored under {sorted(dom)}",
+                    node=n.ast,
+                )
+
+
 # ------------------------------------------------------------------ R15.markers
 def rule_markers(rep):
     with rep.rule(
@@ -885,4 +943,5 @@ def check(rep):
     rule_table_readonly(rep)
     rule_defaults(rep)
     rule_args_pure(rep)
+    rule_actions_reset(rep)
     rule_markers(rep)
